@@ -98,7 +98,13 @@ def run(prop, tier):
     behs += b[:(300 if tier == "quick" else 15000)]
     scen = []
     for i, x in enumerate(behs):
-        scen.append(build(x, i, rng, ["lww", "conflict", "custom"][i % 3]))
+        sc = build(x, i, rng, ["lww", "conflict", "custom"][i % 3])
+        if (i // 3) % 2 == 1:
+            # the earlier gob root format: the store keeps every version object in gob (handles that load gob roots keep
+            # writing gob themselves)
+            sc["cfg"]["gob"] = 1
+            sc["id"] += "-gob"
+        scen.append(sc)
     vf.log("; ".join(notes))
     traces, info = vf.run_harness(binary, scen, workdir)
     vf.log("executed %d scenarios in %.1fs (crashes=%d hangs=%d)" % (len(scen), info["wall"], info["crashes"], info["hangs"]))
@@ -110,9 +116,9 @@ def run(prop, tier):
         "states": states, "transitions": trans, "traces_validated_against_impl": len(scen), "trace_events_validated": events,
         "samples": [{"scenario": sample["id"], "cfg": sample["cfg"], "steps": sample["steps"][:20]}],
         "evaluations": len(scen), "distinct_nontrivial": len({json.dumps(s["steps"], sort_keys=True) for s in scen if any(st["op"] == "tomb" for st in s["steps"])}),
-        "rule": "one execution per sampled TLC behaviour of KV.tla, rotating the merge mode (default / conflict callback / custom merge); non-trivial = distinct step sequences containing a tombstone",
+        "rule": "one execution per sampled TLC behaviour of KV.tla, rotating the merge mode (default / conflict callback / custom merge) and the root format (JSON / gob); non-trivial = distinct step sequences containing a tombstone",
         "generator_runs": notes, "harness": info, "exhaustive": False,
-        "not_covered": ["gob root format (kv_version 0): the root type lives in an internal package; not seeded in this round"],
+        "root_formats": {"json": sum(1 for x in scen if not x["cfg"].get("gob")), "gob": sum(1 for x in scen if x["cfg"].get("gob"))},
     }
     assumptions = ["times are distinct within a history (the property's quantifier)", "fake object store with strong consistency",
                    "the custom-merge callback used is crdt.LastWriteWins itself, so the three modes must agree"]
